@@ -185,6 +185,25 @@ func checkC17(ix *index, add addFn) {
 				ok = true
 			}
 		}
+		if !ok && sc.Cfg.SlowHandlerUs > 0 {
+			// with a slow handler a message can wait behind the one being served:
+			// what counts is the registration at the moment of its hand-over
+			hinAt := -1
+			for j := i; j < len(ix.tr) && j < ix.end(); j++ {
+				if q := &ix.tr[j]; q.Kind == "hin" && q.P.Pay == msg.Pay {
+					hinAt = j
+					break
+				}
+			}
+			for _, g := range regs {
+				if g.h == got && g.ret < hinAt && g.ret > i-1 {
+					ok = true
+				}
+				if g.h == got && (ix.tr[g.inv].T == ix.tr[hinAt].T || ix.tr[g.ret].T == ix.tr[hinAt].T) {
+					ok = true
+				}
+			}
+		}
 		if !ok {
 			add("which", fmt.Sprintf("inbound message %q on conn %d went to handler %d, the registered one is %v", msg.Pay, r.Conn, got, acceptable), nil)
 		}
